@@ -21,6 +21,12 @@
 (*   C16.Circulates         an instance passed more than MaxHops           *)
 (*                          forwarders, or the network did not come to     *)
 (*                          rest within the rig's bound                    *)
+(*   C16.RpcRequestRepublished  an RPC request (Publish with ruid = uid of *)
+(*                          the request message) is published a second     *)
+(*                          time: every side gets and serves it again      *)
+(*   C16.RpcServedTwice     at rest (Served event): the handler of a side  *)
+(*                          ran more often than requests were addressed to *)
+(*                          it                                             *)
 (*   C16.RpcResultMissing   at rest, the result of an RPC request (Publish *)
 (*                          with re = id of the request it answers) has    *)
 (*                          not reached the side the request was sent from *)
@@ -62,7 +68,8 @@ T      == Traces[tid]
 Ev     == T.events
 SidesT == {T.sides[i] : i \in 1 .. Len(T.sides)}
 IdsT   == 1 .. T.nmsgs
-NoPub  == [side |-> "none", origin |-> Absent, fwd |-> Absent, kind |-> "none", re |-> 0]
+NoPub  == [side |-> "none", origin |-> Absent, fwd |-> Absent, kind |-> "none", re |-> 0,
+           ruid |-> "none"]
 
 E(cond, name) == IF cond THEN {} ELSE {name}
 
@@ -101,9 +108,12 @@ Step ==
      /\ CASE e.ev = "Publish" ->
                IF e.id \in IdsT /\ e.side \in SidesT THEN
                  /\ pub'  = [pub EXCEPT ![e.id] = [side |-> e.side, origin |-> e.origin,
-                                                   fwd |-> e.fwd, kind |-> e.kind, re |-> e.re]]
+                                                   fwd |-> e.fwd, kind |-> e.kind, re |-> e.re,
+                                                   ruid |-> e.ruid]]
                  /\ infl' = infl + e.fan
                  /\ errs' = errs \cup E(pub[e.id] = NoPub, "M.PublishedTwice")
+                      \cup E(e.ruid = "none" \/ \A j \in IdsT : pub[j].ruid # e.ruid,
+                             "C16.RpcRequestRepublished")
                  /\ UNCHANGED got
                ELSE
                  /\ errs' = errs \cup {"M.UnknownPublish"}
@@ -151,6 +161,9 @@ Step ==
                /\ infl' = infl - 1
                /\ errs' = errs
                /\ UNCHANGED <<pub, got>>
+          [] e.ev = "Served" ->
+               /\ errs' = errs \cup E(e.runs <= e.reqs, "C16.RpcServedTwice")
+               /\ UNCHANGED <<pub, got, infl>>
           [] e.ev = "Update" ->
                /\ errs' = errs \cup E(e.n >= 1, "C16.ClientUpdateMissing")
                                \cup E(e.n <= 1, "C16.ClientUpdateDuplicate")
